@@ -4283,7 +4283,7 @@ encaps_var_offset:
     |   T_NUM_STRING
             {
                 // TODO: add option to handle 64 bit integer
-                if _, err := strconv.Atoi(string($1.Value)); err == nil {
+                if _, err := strconv.Atoi(string($1.Value)); err == nil && !hasLeadingZero($1.Value) {
                     $$ = &ast.ScalarLnumber{
                         Position: yylex.(*Parser).builder.NewTokenPosition($1),
                         NumberTkn: $1,
@@ -4300,7 +4300,8 @@ encaps_var_offset:
     |   '-' T_NUM_STRING
             {
                 _, err := strconv.Atoi(string($2.Value));
-                isInt := err == nil
+                // "-0" and numbers with leading zeros are string keys in PHP
+                isInt := err == nil && !hasLeadingZero($2.Value) && string($2.Value) != "0"
 
                 if isInt {
                     $$ = &ast.ExprUnaryMinus{
